@@ -34,19 +34,20 @@ type fnInfo struct {
 }
 
 type gen struct {
-	r        *vh.Rand
-	funs     []*fnInfo // callable from the scope being generated
-	cur      *fnInfo   // nil: main program
-	exits    int       // enclosing loops + switches (legal targets of break/continue)
-	depth    int       // nesting depth of compound statements
-	loops    int       // counters handed out in this scope
-	selfCall int       // recursive call sites left in this function
-	tagN     int
-	maxDepth int
-	multi    bool // known stream: break/continue levels >= 2 allowed
-	intVars  []int
-	strVars  []int
-	boolVars []int
+	r         *vh.Rand
+	funs      []*fnInfo // callable from the scope being generated
+	cur       *fnInfo   // nil: main program
+	exits     int       // enclosing loops + switches (legal targets of break/continue)
+	depth     int       // nesting depth of compound statements
+	loops     int       // counters handed out in this scope
+	selfCall  int       // recursive call sites left in this function
+	tagN      int
+	maxDepth  int
+	multi     bool // known stream: break/continue levels >= 2 allowed
+	intVars   []int
+	strVars   []int
+	boolVars  []int
+	noStrVars bool // building the new value of a string variable: no string variables inside (growth stays linear)
 }
 
 func (g *gen) tag() *E {
@@ -123,7 +124,7 @@ func (g *gen) writableInt() int {
 
 func (g *gen) strExpr(d int) *E {
 	if d <= 0 || g.r.Chance(40) {
-		if g.r.Chance(50) || len(g.strVars) == 0 {
+		if g.r.Chance(50) || len(g.strVars) == 0 || g.noStrVars {
 			return Str(vh.Pick(g.r, []string{"x", "y", "ab", "q ", ""}))
 		}
 		return Var(vh.Pick(g.r, g.strVars))
@@ -268,6 +269,8 @@ func (g *gen) assign() *S {
 	case 7:
 		if len(g.strVars) > 0 {
 			x := vh.Pick(g.r, g.strVars)
+			g.noStrVars = true
+			defer func() { g.noStrVars = false }()
 			if g.r.Bool() {
 				return ExprS(OpSet("cat", x, g.strExpr(1)))
 			}
